@@ -315,7 +315,7 @@ def c05_findings(rv, ev, rec, prev_cache):
     # runtime view == cache view for every live container: every field the plugin ever told
     # must equal the cache, and a cached value that changed in this request must have been told
     prev = {c['id']: c for c in (prev_cache or [])}
-    for c in rec['cache']:
+    for c in (rec['cache'] if op != 'Restart' else []):   # a restart is not a request: the flush comes with Synchronize
         cid = c['id']
         if c['state'] not in LIVE or cid in rv.stopped or cid in rv.removed:
             continue
@@ -323,7 +323,7 @@ def c05_findings(rv, ev, rec, prev_cache):
         if v is None:
             continue       # never created through us (synchronized-in): nothing told yet
         pc = prev.get(cid)
-        for f in FIELDS:
+        for f in (FIELDS if not c['pending'] else ()):
             cv = c[f]
             told = v.get(f)
             if told is not None:
@@ -365,4 +365,148 @@ def c12_findings(ev, rec, optout_cpu, optout_mem, told_mems):
                              '%s (%s) tells memory-opted-out container %s mems=%s (had %s)' % (rec['op'], kind, cid, u['mems'], prev), seq))
         if u.get('mems') is not None:
             told_mems[cid] = u['mems']
+    return out
+
+
+# ---------------------------------------------------------------- balloons (C02, C04, C09)
+
+def bln_state_findings(rec, cfg, machine):
+    out = []
+    b = rec.get('bln')
+    if not b:
+        return out
+    seq = rec['seq']
+    cache = {c['id']: c for c in rec['cache']}
+    allowed = set(b['allowed'])
+    free = set(b['free'])
+    isolated = {c['id'] for c in machine['cpus'] if c['isolated']}
+    blns = b['balloons']
+    thread_sib = {c['id']: sorted(c['threads']) for c in machine['cpus']}
+    # --- partition
+    union = set()
+    for i, x in enumerate(blns):
+        cx = set(x['cpus'])
+        if not cx <= allowed:
+            out.append(F('C02', 'balloon-within-available', 'balloon-cpus-outside-available', 'balloon %s has CPUs %s outside available' % (x['name'], sorted(cx - allowed)), seq))
+        for y in blns[i + 1:]:
+            if cx & set(y['cpus']):
+                out.append(F('C02', 'balloons-disjoint', 'balloons-overlap', 'balloons %s and %s share CPUs %s' % (x['name'], y['name'], sorted(cx & set(y['cpus']))), seq))
+        union |= cx
+    if free != allowed - union:
+        out.append(F('C02', 'free-is-complement', 'free-not-complement', 'free CPUs %s != available minus balloons %s' % (sorted(free), sorted(allowed - union)), seq))
+    # --- membership
+    where = {}
+    for x in blns:
+        for pod, ctrs in x['members'].items():
+            for cid in ctrs:
+                where.setdefault(cid, []).append(x['name'])
+    for cid, names in where.items():
+        if len(names) > 1:
+            out.append(F('C02', 'member-of-exactly-one', 'container-in-two-balloons', 'container %s is a member of %s' % (cid, names), seq))
+        c = cache.get(cid)
+        if c is None:
+            out.append(F('C09', 'no-dangling-membership', 'member-not-in-cache', 'balloon %s lists container %s which no longer exists' % (names, cid), seq))
+        elif c['state'] not in LIVE:
+            out.append(F('C09', 'stopped-never-holds', 'stopped-container-is-member', 'balloon %s lists %s container %s' % (names, c['state'], cid), seq))
+    # --- pinning, shared idle, limits, sizes
+    levels = b.get('levels') or {}
+    bydef = {}
+    for x in blns:
+        bydef.setdefault(x['def'], []).append(x)
+        cx, sh = set(x['cpus']), set(x['shared_idle'])
+        if sh & union:
+            out.append(F('C02', 'shared-idle-sound', 'shared-idle-in-a-balloon', 'balloon %s shares CPUs %s that belong to a balloon' % (x['name'], sorted(sh & union)), seq))
+        if sh & isolated:
+            out.append(F('C02', 'shared-idle-sound', 'shared-idle-isolated', 'balloon %s shares isolated CPUs %s' % (x['name'], sorted(sh & isolated)), seq))
+        if not sh <= allowed:
+            out.append(F('C02', 'shared-idle-sound', 'shared-idle-outside-available', 'balloon %s shares CPUs %s outside available' % (x['name'], sorted(sh - allowed)), seq))
+        lvl = x['share_idle_in']
+        if lvl and lvl in levels:
+            scope = set()
+            for grp in levels[lvl]:
+                if set(grp) & cx:
+                    scope |= set(grp)
+            want = (scope & free) - isolated
+            if not want <= sh:
+                out.append(F('C02', 'shared-idle-complete', 'idle-cpu-not-shared', 'balloon %s (scope %s): idle CPUs %s of its scope are not in its shared set %s' % (x['name'], lvl, sorted(want - sh), sorted(sh)), seq))
+        elif not lvl and sh:
+            out.append(F('C02', 'shared-idle-sound', 'shared-idle-without-scope', 'balloon %s has shared CPUs %s but no sharing scope' % (x['name'], sorted(sh)), seq))
+        nmem = sum(len(v) for v in x['members'].values())
+        if x['max_cpus'] and len(cx) > x['max_cpus']:
+            out.append(F('C02', 'min-max-cpus', 'above-max-cpus', 'balloon %s has %d CPUs > maxCPUs %d' % (x['name'], len(cx), x['max_cpus']), seq))
+        if len(cx) < x['min_cpus']:
+            out.append(F('C02', 'min-max-cpus', 'below-min-cpus', 'balloon %s has %d CPUs < minCPUs %d' % (x['name'], len(cx), x['min_cpus']), seq))
+        if nmem and x['def'] != 'reserved' and len(cx) < 1:
+            out.append(F('C02', 'nonempty-balloon-has-cpu', 'nonempty-balloon-without-cpu', 'balloon %s has %d containers and no CPU' % (x['name'], nmem), seq))
+        if nmem and 1000 * len(cx) < x['req_milli']:
+            sig = 'requests-exceed-max-cpus' if x['max_cpus'] and x['req_milli'] > 1000 * x['max_cpus'] else 'size-below-requests'
+            out.append(F('C02', 'size-covers-requests', sig, 'balloon %s has %d CPUs for %dm requested' % (x['name'], len(cx), x['req_milli']), seq))
+        # pinning of members
+        for pod, ctrs in x['members'].items():
+            for cid in ctrs:
+                c = cache.get(cid)
+                if not c or c['state'] not in LIVE or not b['pin_cpu'] or c.get('preserve_cpu'):
+                    continue
+                pin = cx | sh
+                told = parse_set(c['cpus'])
+                hide = x['hide_ht'] or c.get('hide_ht')
+                if told != pin:
+                    # one thread per core?
+                    one = {min(t for t in thread_sib[cpu] if t in pin) for cpu in pin}
+                    if told == one:
+                        continue
+                    out.append(F('C02', 'pinned-exact', 'cpuset-differs-from-balloon', 'container %s pinned to %s, balloon %s has %s + shared %s' % (cid, c['cpus'], x['name'], sorted(cx), sorted(sh)), seq))
+    for d, l in bydef.items():
+        mx, mn = l[0]['max_balloons'], l[0]['min_balloons']
+        if mx and len(l) > mx:
+            out.append(F('C02', 'min-max-balloons', 'above-max-balloons', 'type %s has %d instances > maxBalloons %d' % (d, len(l), mx), seq))
+        if len(l) < mn:
+            out.append(F('C02', 'min-max-balloons', 'below-min-balloons', 'type %s has %d instances < minBalloons %d' % (d, len(l), mn), seq))
+    # managed live containers are members of exactly one balloon
+    for c in rec['cache']:
+        if c['state'] in LIVE and c['id'] not in where and c['cpus'] != '' and False:
+            pass
+    # --- cpu classes
+    cls = rec.get('cpuclasses') or {}
+    cls_of = {}
+    for k, cpus in cls.items():
+        for cpu in cpus:
+            cls_of[cpu] = k
+    for x in blns:
+        for cpu in x['cpus']:
+            if cls_of.get(cpu, '') != x['cpu_class']:
+                out.append(F('C02', 'class-of-every-cpu', 'balloon-cpu-wrong-class', 'CPU %d of balloon %s has class %r, type says %r' % (cpu, x['name'], cls_of.get(cpu, ''), x['cpu_class']), seq))
+    for cpu in sorted(free):
+        if cls_of.get(cpu, '') != b['idle_class']:
+            out.append(F('C02', 'class-of-every-cpu', 'idle-cpu-wrong-class', 'idle CPU %d has class %r, idle class is %r' % (cpu, cls_of.get(cpu, ''), b['idle_class']), seq))
+    # --- memory (C04)
+    managed = set(where)
+    pin_by = {}
+    for x in blns:
+        pm = b['pin_memory'] if x['pin_memory'] is None else x['pin_memory']
+        for pod, ctrs in x['members'].items():
+            for cid in ctrs:
+                pin_by[cid] = pm
+    out += mem_findings(rec, b['libmem'], {}, b['pin_memory'], machine, seq, managed, pin_by)
+    return out
+
+
+def bln_pristine_findings(first, rec, same_config=True):
+    out = []
+    b, b0 = rec.get('bln'), first.get('bln')
+    if not b or not b0:
+        return out
+    seq = rec['seq']
+    if b['libmem'].get('users'):
+        out.append(F('C09', 'no-memory-allocations', 'libmem-request-after-drain', 'memory allocations left: %s' % b['libmem']['users'], seq))
+    for x in b['balloons']:
+        if x['members']:
+            out.append(F('C09', 'no-dangling-membership', 'member-after-drain', 'balloon %s still has members %s' % (x['name'], x['members']), seq))
+    if same_config:
+        # only the pre-created balloons at their minimum sizes (up to instance renumbering and CPU identity)
+        sig = lambda bb: sorted((x['def'], len(x['cpus'])) for x in bb['balloons'])
+        if sig(b) != sig(b0):
+            out.append(F('C09', 'only-precreated-balloons', 'balloons-not-pristine', 'balloons after drain %s, after configuration %s' % (sig(b), sig(b0)), seq))
+        if len(b['free']) != len(b0['free']):
+            out.append(F('C09', 'all-other-cpus-idle', 'idle-count-differs', '%d idle CPUs after drain, %d after configuration' % (len(b['free']), len(b0['free'])), seq))
     return out
